@@ -24,6 +24,7 @@ func init() {
 	vhRegister("vh_C06_expiry", vh_C06_expiry)
 	vhRegister("vh_C06_expiry_values", vh_C06_expiry_values)
 	vhRegister("vh_C06_clock", vh_C06_clock)
+	vhRegister("vh_C06_clock_twice", vh_C06_clock_twice)
 	vhRegister("vh_C08_sublayouts", vh_C08_sublayouts)
 	vhRegister("vh_C08_authorized", vh_C08_authorized)
 	vhRegister("vh_C09_inspections", vh_C09_inspections)
@@ -731,6 +732,24 @@ func vh_C06_clock(a []int) {
 	vReach("C06.end")
 }
 
+// vh_C06_clock_twice: two verifications in one process while the clock advances: each one is judged against the
+// clock at the time it is made (a layout that was still valid at the first verification and has expired since is
+// refused by the second one).  a = {index of the distance at the first call, index of the time that passes in between}
+var vhClockAdvances = []int64{0, 1, 1000000000, 3600000000000, 86400000000000, 31536000000000000}
+
+func vh_C06_clock_twice(a []int) {
+	vhParseCalls, vhParsedAsUTC = 0, true
+	d, adv := vhClockDeltas[a[0]], vhClockAdvances[a[1]]
+	vhClockNow = time.Unix(1700000000, 500000000).UTC()
+	vhClockExpires = vhClockNow.Add(time.Duration(d))
+	e1 := VerifyLayoutExpiration(Layout{Expires: "EXPIRES"})
+	vhClockNow = vhClockNow.Add(time.Duration(adv))
+	e2 := VerifyLayoutExpiration(Layout{Expires: "EXPIRES"})
+	vObserve("clock-twice", d, adv, e1 == nil, e2 == nil)
+	vAssert("C06.every-verification-is-judged-against-the-clock-at-its-own-time", (e1 == nil) == (d >= 0) && (e2 == nil) == (d-adv >= 0))
+	vReach("C06.end")
+}
+
 // vh_C06_expiry: VerifyLayoutExpiration accepts iff the expiry parses with the
 // UTC schema and does not lie in the past.
 func vh_C06_expiry(a []int) {
@@ -942,7 +961,13 @@ func vhInTotoRun(name string, runDir string, materialPaths []string, productPath
 	return &vhInspMeta{vhMeta: vhMeta{tag: "i-" + name, payload: Layout{Type: "layout"}}, name: name}, nil
 }
 
-// a = {#inspections, with run dir (0/1)}
+// vh_C14_inspections: the same scenario counted for C14: an inspection whose command is empty, cannot be started or
+// leaves no exit status behind is an error, an accepted one has exit status 0.
+func vh_C14_inspections(a []int) { vh_C09_inspections(a) }
+
+func init() { vhRegister("vh_C14_inspections", vh_C14_inspections) }
+
+// a = {#inspections, run dir (0 none, 1 a name, 2 a name with trailing separator)}
 func vh_C09_inspections(a []int) {
 	n, withDir := a[0], a[1]
 	vhRunCalls, vhDumped = nil, nil
@@ -952,8 +977,13 @@ func vh_C09_inspections(a []int) {
 		layout.Inspect = append(layout.Inspect, Inspection{Type: "inspection", Run: []string{"cmd-" + names[i]}, SupplyChainItem: SupplyChainItem{Name: names[i]}})
 	}
 	runDir := ""
-	if withDir == 1 {
+	switch withDir {
+	case 1:
 		runDir = "RUN"
+	case 2:
+		// with a trailing separator the name denotes what a symbolic link points to, without it the link itself:
+		// the directory is recorded under the name it was given
+		runDir = "RUN/"
 	}
 	// both switches are arbitrary, so that one passed in the other's place is told apart
 	vhLineNormArg, vhUseDSSEArg = vBool("line-normalization"), vBool("use-dsse")
